@@ -1,7 +1,7 @@
 (* C04 - engine instances are isolated; interleaved queries do not interfere.
    Only statements; every proof is `exact <lemma>` to a lemma proved in Engine/Isolation.v, Engine/Slots.v,
    Engine/SlotsReach.v, Engine/Footprint.v, Engine/CursorFrame.v, Engine/Frame.v (examples: Engine/IsolationExamples.v,
-   Engine/SlotsExamples.v).
+   Engine/SlotsExamples.v, Engine/NonLifoExamples.v).
 
    Model (Engine/World.v): a world = n engine records (atom table, fact store, eval_context, reserved names,
    the query generators the caller holds) + ONE heap of variable bindings shared by all engines (a Variable
@@ -23,7 +23,7 @@ From Coq Require Import String.
 From Coq Require Import List Arith Bool.
 Import ListNotations.
 From YP Require Import Base.Str Term.Term Unify.Unify Engine.Frame Engine.Db Engine.World Engine.CursorFrame
-  Engine.Isolation Engine.Footprint Engine.Slots Engine.SlotsReach Engine.IsolationExamples Engine.SlotsExamples.
+  Engine.Isolation Engine.Footprint Engine.Slots Engine.SlotsReach Engine.IsolationExamples Engine.SlotsExamples Engine.NonLifoExamples.
 
 (* the initial world of any number of engines satisfies the invariant, and every step keeps it (see step_local) *)
 Theorem C04_init_world_inv : forall n, winv (init_world n).
@@ -326,3 +326,35 @@ Proof. exact ex_refuted_values. Qed.
 (* the hypotheses of the read-only theorem C04_same_engine_slots hold for the run of C04_nonvacuous_slots *)
 Example C04_nonvacuous_readonly : nowrite 1 0 50 xops xe [] /\ Forall qop xops /\ sinv 1 0 xPQ xe [].
 Proof. exact ex_nowrite. Qed.
+
+(* round 3: the hypotheses of C04_disjoint_queries_alone on a history whose generator lifetimes do NOT nest, over a dynamic
+   fact with a shared variable: p(X,X).  g0 = query p(V0,a); next g0; g1 = query p(V1,b); next g1; close g0 (the OLDER one,
+   g1 stays suspended, its bindings are in the heap); g2 = query p(V2,c).  Then next g2; next g1; next g2; next g1: g2
+   answers (c, c) and ends - its pattern clashes with g1's binding of the fact's variable, which it must not see - exactly as
+   in the run in which only g2 is advanced *)
+Example C04_nonvacuous_nonlifo :
+  hist_ok 1 0 50 nprep init_engine [] /\ Forall qop nops /\ nowrite 1 0 50 nops ne nh
+  /\ snd (erun 1 0 50 nprep init_engine [])
+     = [otag "ok" []; otag "started" []; xans2 "a" "a"; otag "started" []; xans2 "b" "b"; otag "closed" []; otag "started" []]
+  /\ length nh = 2
+  /\ pick 2 nops (snd (erun 1 0 50 nops ne nh)) = [xans2 "c" "c"; otag "done" []]
+  /\ pick 1 nops (snd (erun 1 0 50 nops ne nh)) = [otag "done" []; otag "done" []]
+  /\ pick 2 nops (snd (erun 1 0 50 nops ne nh))
+     = snd (erun 1 0 50 (filter (is_slot 2) nops) ne (fP (PQ_of 1 0 ne 2) nh)).
+Proof. exact ex_nonlifo. Qed.
+
+(* round 3: generators suspended INSIDE A RECURSION at the same time: n(z). n(s(X)) :- n(X).  c(a).  g0, g1, g2 enumerate n/1
+   and are suspended two, one and two calls deep (their steps interleaved); the oldest, g0, is closed; the probe g3 = c(V3) is
+   started.  Then next g3; next g1; next g3; next g2: the probe answers a and ends, g1 and g2 go on with s(s(z)) and
+   s(s(s(z))); probe and g1 observe what they observe when only they are advanced *)
+Example C04_nonvacuous_deep :
+  hist_ok 1 0 80 dprep init_engine [] /\ Forall qop dops /\ nowrite 1 0 80 dops de dh
+  /\ pick 3 dops (snd (erun 1 0 80 dops de dh)) = [xans "a"; otag "done" []]
+  /\ pick 1 dops (snd (erun 1 0 80 dops de dh)) = [xobs1 (xS (xS (xA "z")))]
+  /\ pick 2 dops (snd (erun 1 0 80 dops de dh)) = [xobs1 (xS (xS (xS (xA "z"))))]
+  /\ 4 <= length dh
+  /\ pick 3 dops (snd (erun 1 0 80 dops de dh))
+     = snd (erun 1 0 80 (filter (is_slot 3) dops) de (fP (PQ_of 1 0 de 3) dh))
+  /\ pick 1 dops (snd (erun 1 0 80 dops de dh))
+     = snd (erun 1 0 80 (filter (is_slot 1) dops) de (fP (PQ_of 1 0 de 1) dh)).
+Proof. exact ex_deep. Qed.
